@@ -266,10 +266,32 @@ def do_selftest(binary, prop, seed, outdir, runs, extra_args):
                     break
     return res
 
-def _refdigest(binary, seed, gen, order, outdir, tag):
+# Two environments for the processes of the cross-process comparison: nothing of the run's environment
+# (time zone, locale, home and temp directories, working directory, user, CPU count, debug switches) may
+# show in descriptors or printed text. (Host name and process id differ between processes anyway or
+# cannot be changed here.)
+RUN_ENVS = {
+    "shuffled": {"TZ": "UTC", "LANG": "C", "LC_ALL": "C", "HOME": "/nonexistent-home-a", "USER": "alpha", "LOGNAME": "alpha",
+                 "GOMAXPROCS": "1", "NO_COLOR": "1", "CI": "true"},
+    "reversed": {"TZ": "Pacific/Auckland", "LANG": "de_DE.UTF-8", "LC_ALL": "de_DE.UTF-8", "HOME": "/tmp", "USER": "beta", "LOGNAME": "beta",
+                 "GOMAXPROCS": "7", "DEBUG": "1", "J5_DEBUG": "1", "BCL_VERBOSE": "true", "VERBOSE": "1", "LOG_LEVEL": "debug", "TERM": "dumb"},
+}
+
+
+def _refdigest(binary, seed, gen, order, outdir, tag, env_tag=None):
     out = os.path.join(outdir, "refdigest.%s.json" % tag)
+    env = goenv()
+    cwd = outdir
+    if env_tag:
+        env = dict(env)
+        env.update(RUN_ENVS[env_tag])
+        cwd = os.path.join(outdir, "cwd-" + env_tag, "deeper" if env_tag == "reversed" else "")
+        os.makedirs(cwd, exist_ok=True)
+        tmp = os.path.join(outdir, "tmp-" + env_tag)
+        os.makedirs(tmp, exist_ok=True)
+        env["TMPDIR"] = tmp
     r = run([binary, "-mode", "refdigest", "-seed", str(seed), "-gen", gen, "-indices", ",".join(map(str, order)), "-out", out],
-            env=goenv(), capture_output=True, text=True, cwd=outdir)
+            env=env, capture_output=True, text=True, cwd=cwd)
     if r.returncode != 0 or not os.path.exists(out):
         return None
     return json.load(open(out)).get("ref_digests") or {}
@@ -296,11 +318,11 @@ def history_check(binary, seed, tier, tcfg, results, outdir):
     sample = sample[: (32 if tier == "quick" else 160)]
     orders = {"shuffled": list(sample), "reversed": list(reversed(sample))}
     for tag, order in orders.items():
-        d = _refdigest(binary, seed, gen, order, outdir, tag)
+        d = _refdigest(binary, seed, gen, order, outdir, tag, env_tag=tag)
         if d is None:
             trouble("history check: refdigest process failed")
         for pos, i in enumerate(order):
-            seen[i].append((d.get(str(i)), "process compiling the sample in %s order" % tag, order[:pos + 1]))
+            seen[i].append((d.get(str(i)), "process compiling the sample in %s order (environment %s)" % (tag, tag), order[:pos + 1], tag))
     viol = []
     compared = 0
     for i in sorted(seen):
@@ -312,7 +334,22 @@ def history_check(binary, seed, tier, tcfg, results, outdir):
         bad = [o for o in obs if o[0] != fresh]
         if not bad:
             continue
-        dig, desc, prefix = min(bad, key=lambda o: len(o[2]))
+        # the environment rather than the history? the program alone, in that environment
+        env_hit = None
+        for o in bad:
+            if len(o) > 3:
+                de = (_refdigest(binary, seed, gen, [i], outdir, "env%d" % i, env_tag=o[3]) or {}).get(str(i))
+                if de is not None and de != fresh:
+                    env_hit = (o[3], de)
+                    break
+        if env_hit:
+            viol.append(dict(property="C14", master_seed=seed, program_index=i, exec_index=-1, program=None, minimised=True,
+                             finding_key="environment_dependence",
+                             violation=dict(**{"class": "environment_dependence"}, form="", op_index=-1, op="",
+                                            detail="reference outputs of program %d, compiled alone in a fresh process: digest %s in the default environment, %s with %s" % (i, fresh, env_hit[1], json.dumps(RUN_ENVS[env_hit[0]], sort_keys=True))),
+                             history_case=dict(index=i, order=[i], gen=gen, fresh_digest=fresh, history_digest=env_hit[1], env=RUN_ENVS[env_hit[0]])))
+            continue
+        dig, desc, prefix = min(bad, key=lambda o: len(o[2]))[:3]
         # minimise the list of earlier programs (fresh process per candidate)
         pre = prefix[:-1]
         def differs(cand):
